@@ -8,6 +8,7 @@
 #include <pthread.h>
 #include <sched.h>
 #include <signal.h>
+#include <ucontext.h>
 #include <time.h>
 #include <unistd.h>
 
@@ -313,6 +314,22 @@ void PreemptUnregister();
 void PreempterStart(uint64_t seed, uint64_t gap_min_us, uint64_t gap_max_us, uint64_t stall_min_us, uint64_t stall_max_us);
 void PreempterStop();
 
+// Instruction stepper (plain x86-64 builds): arms the CPU's trap flag so that the calling thread takes a SIGTRAP after
+// every instruction; after `k` instructions the handler busy-waits for `stall_ns` (a preemption placed at exactly that
+// instruction boundary) and stops stepping.  Arm / disarm from ordinary code or from a hook callback.
+#if !VERIF_TSAN && !VERIF_ASAN && defined(__x86_64__)
+#define VERIF_STEPPER 1
+#else
+#define VERIF_STEPPER 0
+#endif
+void StepperInstall();
+void StepArm(uint64_t k, uint64_t stall_ns);
+void StepDisarm();
+extern thread_local volatile uint64_t tl_step_left;
+extern thread_local uint64_t tl_step_stall_ns;
+extern std::atomic<uint64_t> g_step_stalls;  // stalls delivered
+extern std::atomic<uint64_t> g_step_traps;   // instructions single-stepped
+
 inline void
 ChaosThreadBegin(int tid, uint64_t seed)
 {
@@ -531,6 +548,66 @@ std::atomic<uint64_t> g_preempt_handled{0};
 std::atomic<bool> g_preempt_run{false};
 static pthread_t g_preempter_thread;
 static uint64_t g_preempt_cfg[5];
+
+thread_local volatile uint64_t tl_step_left = 0;
+thread_local uint64_t tl_step_stall_ns = 0;
+std::atomic<uint64_t> g_step_stalls{0};
+std::atomic<uint64_t> g_step_traps{0};
+#if VERIF_STEPPER
+static void
+StepTrapHandler(int, siginfo_t *, void *ucv)
+{
+  auto *uc = static_cast<ucontext_t *>(ucv);
+  g_step_traps.fetch_add(1, kRlx);
+  if (tl_step_left == 0 || --tl_step_left == 0) {
+    if (tl_step_stall_ns != 0) {
+      g_step_stalls.fetch_add(1, kRlx);
+      const auto end = NowNs() + tl_step_stall_ns;
+      while (NowNs() < end) {
+      }
+      tl_step_stall_ns = 0;
+    }
+    uc->uc_mcontext.gregs[REG_EFL] &= ~0x100LL;  // stop stepping
+  }
+}
+void
+StepperInstall()
+{
+  struct sigaction sa {};
+  sa.sa_sigaction = &StepTrapHandler;
+  sa.sa_flags = SA_SIGINFO | SA_RESTART;
+  sigemptyset(&sa.sa_mask);
+  sigaction(SIGTRAP, &sa, nullptr);
+}
+void
+StepArm(uint64_t k, uint64_t stall_ns)
+{
+  tl_step_stall_ns = stall_ns;
+  tl_step_left = k + 1;
+  // (skip the red zone of the calling function before touching the stack)
+  asm volatile("lea -128(%%rsp), %%rsp\n\tpushfq\n\torq $0x100, (%%rsp)\n\tpopfq\n\tlea 128(%%rsp), %%rsp" ::: "memory", "cc");
+}
+void
+StepDisarm()
+{
+  asm volatile("lea -128(%%rsp), %%rsp\n\tpushfq\n\tandq $-257, (%%rsp)\n\tpopfq\n\tlea 128(%%rsp), %%rsp" ::: "memory", "cc");
+  tl_step_left = 0;
+  tl_step_stall_ns = 0;
+}
+#else
+void
+StepperInstall()
+{
+}
+void
+StepArm(uint64_t, uint64_t)
+{
+}
+void
+StepDisarm()
+{
+}
+#endif
 
 void
 PreemptRegister()
